@@ -21,7 +21,7 @@ RULE = (
     "contents), (b) with each general rule violated at a random position, (c) with each plug-in rule "
     "violated (dbc/can_c: unknown struct; dbc: duplicate CAN id; can_c: 65..72 bit message), (d) with "
     "a synthetic always-rejecting check registered in each of the 8 verifier categories, before or "
-    "after the general checks, or as the first of two same-named checks.  Output directory states: absent, empty, unrelated files, files with "
+    "after the general checks, as the first of two same-named checks, or registered on the verifier only after its GeneratorManager was constructed; (e) with ONE manager, verifier and schema object that is accepted and generated from once and then edited in place into an ill-formed tree.  Output directory states: absent, empty, unrelated files, files with "
     "the very names the generator writes (other text, a CRLF copy of the output, bytes that are not "
     "UTF-8, an identical copy; <stem>.tmp/.bak/.orig siblings of every output), stale .c/.h files.  Monitors: return value must be Err; a "
     "sys.addaudithook event log of every write-open / remove / rename / mkdir / rmdir during the "
@@ -174,7 +174,7 @@ class Capture:
         self.cls.generate = self.orig
 
 
-def drive(run, gen_name, t, expect_reject, source, dir_state, root, probe=None, known_names=None):
+def drive(run, gen_name, t, expect_reject, source, dir_state, root, probe=None, known_names=None, before=None):
     from fcp.codegen import GeneratorManager
     from fcp.verifier import make_general_verifier
 
@@ -185,6 +185,32 @@ def drive(run, gen_name, t, expect_reject, source, dir_state, root, probe=None, 
         run.inconclusive_because("could not build tree: %s" % e)
         return
     verifier = make_general_verifier()
+    mgr = None
+    if probe is not None and probe[1] == "late":
+        # the manager exists before the rejecting check is registered on its verifier
+        mgr = GeneratorManager(verifier)
+    if before is not None:
+        # history: ONE manager, verifier and schema object; the schema is accepted and generated from
+        # once (generator before[1]), then edited in place into the ill-formed tree t
+        t_before, first_gen = before
+        case["tree_before"] = t_before
+        case["first_generator"] = first_gen
+        good = c09.build(t_before)
+        mgr = GeneratorManager(verifier)
+        pre_dir = os.path.join(root, "pre")
+        shutil.rmtree(pre_dir, ignore_errors=True)
+        try:
+            pre = mgr.generate(first_gen, None, None, good, pre_dir)
+        except Exception as e:
+            pre = e
+        shutil.rmtree(pre_dir, ignore_errors=True)
+        if type(pre).__name__ != "Ok":
+            run.violation("generate(%s) failed on a schema every registered check accepts: %r" % (first_gen, pre), case)
+            return
+        for attr in ("structs", "enums", "impls", "services", "devices"):
+            setattr(good, attr, getattr(fcp, attr))
+        fcp = good
+        run.count("edited_after_acceptance")
     called = {"n": 0}
     if probe is not None:
         cat, position = probe
@@ -230,7 +256,7 @@ def drive(run, gen_name, t, expect_reject, source, dir_state, root, probe=None, 
     try:
         with audit.Recorder() as rec:
             try:
-                result = GeneratorManager(verifier).generate(gen_name, None, None, fcp, out_dir)
+                result = (mgr or GeneratorManager(verifier)).generate(gen_name, None, None, fcp, out_dir)
             except SystemExit:
                 run.inconclusive_because("generator %s is not installed" % gen_name)
                 return
@@ -409,6 +435,8 @@ def run(run):
                 if tt is None:
                     continue
                 drive(run, g, tt, True, "general/" + rule, rr.choice(DIR_STATES), root, known_names=names)
+                if rr.random() < 0.5:
+                    drive(run, g, tt, True, "edited-after-accept/" + rule, rr.choice(DIR_STATES), root, known_names=names, before=(t, rr.choice(GENERATORS)))
             # (c) plug-in rules
             if g in ("dbc", "can_c"):
                 drive(run, g, inject_plugin(rr, t, "unknown-struct"), True, "plugin/unknown-struct", rr.choice(DIR_STATES), root, known_names=names)
@@ -418,7 +446,7 @@ def run(run):
                 drive(run, g, inject_plugin(rr, t, "oversize"), True, "plugin/oversize", rr.choice(DIR_STATES), root, known_names=names)
             # (d) synthetic rejecting check in every category
             for cat in CATEGORIES:
-                for pos in ("last", "first", "pair"):
+                for pos in ("last", "first", "pair", "late"):
                     drive(run, g, t, True, "synthetic/%s/%s" % (cat, pos), rr.choice(DIR_STATES), root, probe=(cat, pos), known_names=names)
         if run.shard == 0:
             cli_cases(run, root)
@@ -427,7 +455,7 @@ def run(run):
 
 
 def conclude(run):
-    run.require("cli_runs", "generate_calls", "rejections_wrote_nothing", "successes_wrote_exactly_returned", "files_compared")
+    run.require("edited_after_acceptance", "cli_runs", "generate_calls", "rejections_wrote_nothing", "successes_wrote_exactly_returned", "files_compared")
 
 
 def replay(run, case):
@@ -440,6 +468,7 @@ def replay(run, case):
         if src.startswith("synthetic/"):
             _, cat, pos = src.split("/")
             probe = (cat, pos)
-        drive(run, case["generator"], case["tree"], src != "none", src, case["dir_state"], root, probe=probe)
+        before = (case["tree_before"], case["first_generator"]) if "tree_before" in case else None
+        drive(run, case["generator"], case["tree"], src != "none", src, case["dir_state"], root, probe=probe, before=before)
     finally:
         shutil.rmtree(root, ignore_errors=True)
